@@ -36,9 +36,11 @@ structure IterSpec where
   n : Nat
   nextThrow : Option Nat
   ret : RetMode
+  lex : Bool := false     -- `for (let x of ..)` with a closure capturing x (head scope + per-iteration scope)
   deriving DecidableEq, Repr
 
-inductive LoopKind | while_ | do_ | for_ | forin
+/-- `forlet` = `for (let q = 0; q < n; q++)` with a closure capturing `q` (per-iteration scope) -/
+inductive LoopKind | while_ | do_ | for_ | forin | forlet
   deriving DecidableEq, Repr
 
 inductive Stmt
